@@ -794,6 +794,17 @@ func (c *SimCluster) PendingEvents() int {
 	return n
 }
 
+// OpenAgents lists the agents (connections of the client library) that have not been closed.
+func (c *SimCluster) OpenAgents() []string {
+	var out []string
+	for _, ag := range c.agents {
+		if !ag.closed {
+			out = append(out, ag.kind+":"+ag.bucket)
+		}
+	}
+	return out
+}
+
 // KillAgents simulates the death of the client process: every agent stops, nothing more is delivered.
 func (c *SimCluster) KillAgents() {
 	for _, ag := range c.agents {
